@@ -63,10 +63,25 @@ let parse_steps hd s : step list =
     | 'P' -> SProcess (parse_results hd arg)
     | _ -> fail "bad step %s" st) (split '|' s)
 
+(* histories for the pruning block state (keyword `prune`) *)
+let parse_tsteps hd s : tstep list =
+  List.map (fun st ->
+    let arg = String.sub st 1 (String.length st - 1) in
+    match st.[0] with
+    | 'A' -> TAnnounce hd.(int_of_n (n_of_hex arg))
+    | 'K' -> TKnown hd.(int_of_n (n_of_hex arg))
+    | 'Z' -> TFinalise hd.(int_of_n (n_of_hex arg)).h_hash
+    | 'M' -> (match split '.' arg with
+        | [who; i; best] -> TAnnounceMsg (n_of_hex who, hd.(int_of_n (n_of_hex i)), n_of_hex best)
+        | _ -> fail "bad announce %s" st)
+    | 'P' -> TProcess (parse_results hd arg)
+    | _ -> fail "bad step %s" st) (split '|' s)
+
 (* ---- rendering the model's results *)
 let ev_str = function
   | EImport s -> "i" ^ name_of s | ESkip s -> "s" ^ name_of s | EOrphan s -> "o" ^ name_of s
   | EDup s -> "d" ^ name_of s | ENothing s -> "n" ^ name_of s | EFinal s -> "f" ^ name_of s
+  | EOrphanPruned s -> "p" ^ name_of s
 
 let acc_str bad rs =
   if rs = [] then "-" else
@@ -98,12 +113,88 @@ let parse_event e =
   let s = hash_of_name (String.sub e 1 (String.length e - 1)) in
   match e.[0] with
   | 'i' -> EImport s | 's' -> ESkip s | 'o' -> EOrphan s | 'd' -> EDup s | 'n' -> ENothing s
-  | 'f' -> EFinal s | _ -> fail "bad event %s" e
+  | 'f' -> EFinal s | 'p' -> EOrphanPruned s | _ -> fail "bad event %s" e
 let parse_events s = if s = "-" then [] else List.map parse_event (split ',' s)
 let parse_acc s = if s = "-" || s = "!" then [] else List.init (String.length s) (fun i -> s.[i] = '1')
 
+(* a history against the pruning block state: the model is run_t, the property predicate is the
+   conclusion of C32_pruning_parents_first_provenance evaluated on the Go observables: no panic; on
+   the prefix inside the precondition no importer event is "parent never known" (o) or "header
+   already stored" (d); every import is a block of a response accepted so far (provenance);
+   rejections as always *)
+let check_prune hdrs bad steps obs =
+  let hd = parse_headers hdrs in
+  let badl = if bad = "-" then [] else List.map n_of_hex (split ',' bad) in
+  let stepl = parse_tsteps hd steps in
+  let ((outs, panicked), _) = run_t sort_frags true badl (init_tstate N0) stepl in
+  let render_t (r : tresult) rs =
+    let st = r.tr_state in
+    String.concat ";" [
+      (if r.tr_error then "err" else "ok");
+      join "," (List.map ev_str r.tr_events);
+      reps_str r.tr_reps;
+      join "," (List.map hex_of_n r.tr_bans);
+      join "," (List.sort compare (List.map (fun b -> name_of b.d_hash) st.ts_un.u_incomplete));
+      join "+" (List.map (fun f -> join "." (List.map (fun b -> name_of b.d_hash) f)) st.ts_un.u_disjoint);
+      join "," (List.map q_str st.ts_queue);
+      acc_str badl rs ] in
+  let render_a (r : tresult) =
+    let st = r.tr_state in
+    String.concat ";" [ "m"; reps_str r.tr_reps;
+      join "," (List.sort compare (List.map (fun b -> name_of b.d_hash) st.ts_un.u_incomplete));
+      join "," (List.map q_str st.ts_queue) ] in
+  let rec render steps outs = match steps, outs with
+    | s :: sr, o :: orr ->
+      (match s, o with
+       | TProcess rs, Some r -> render_t r rs
+       | TAnnounceMsg _, Some r -> render_a r
+       | _, _ -> ".") :: render sr orr
+    | s :: _, [] ->
+      if panicked then (match s with TProcess rs -> ["panic;-;" ^ acc_str badl rs] | _ -> ["panic"]) else []
+    | [], _ -> [] in
+  let m = String.concat "|" (render stepl outs) in
+  let obs_steps = split '|' obs in
+  let obs_panic = List.exists (fun o -> String.length o >= 5 && String.sub o 0 5 = "panic") obs_steps in
+  (* walk the steps with their observations *)
+  let ok = ref (not obs_panic) and why = ref "" and inside = ref true in
+  let seen = ref [] and nimports = ref 0 and pruned_parent = ref false and skips = ref false in
+  let rec walk steps obs = match steps, obs with
+    | TProcess rs :: sr, o :: orr ->
+      (match split ';' o with
+       | [_; ev; _; _; _; _; _; acc] ->
+         let evs = parse_events ev and accl = parse_acc acc in
+         if not (rejections_ok_b rs accl) then (ok := false; why := "a forged/unlinked response was accepted");
+         if not (tsteps_body_b [TProcess rs]) then inside := false;
+         List.iteri (fun i r -> if i < List.length accl && List.nth accl i then
+                        seen := List.map (fun b -> b.d_hash) r.r_resp @ !seen) rs;
+         List.iter (fun e -> match e with
+           | EImport s -> incr nimports;
+             if not (List.mem s !seen) then (ok := false; why := "a block was imported that no accepted response contained")
+           | EOrphan _ when !inside -> ok := false; why := "the importer was handed a block whose parent was never known"
+           | EDup _ when !inside -> ok := false; why := "the importer was handed a header the block state has"
+           | EOrphanPruned _ -> pruned_parent := true
+           | ESkip _ -> skips := true
+           | _ -> ()) evs
+       | _ -> ());
+      walk sr orr
+    | _ :: sr, _ :: orr -> walk sr orr
+    | _, _ -> () in
+  walk stepl obs_steps;
+  let tags = String.concat "," (List.filter (fun x -> x <> "") [
+    "pruning-state";
+    (if tsteps_body_b stepl then "wf-history" else "outside-precondition");
+    (if obs_panic then "panic" else "");
+    (if !nimports > 0 then "imports" else "no-import");
+    (if !pruned_parent then "parent-pruned-meanwhile" else "");
+    (if !skips then "skip-known" else "");
+    (if List.exists (function TFinalise _ -> true | _ -> false) stepl then "external-finalisation" else "") ]) in
+  { prop_ok = !ok; model_eq = (m = obs); nontrivial = !nimports > 0; finding = "-"; tags;
+    detail = if !ok && m = obs then "" else
+        Printf.sprintf "%s model=%s" !why (if String.length m > 600 then String.sub m 0 600 ^ "..." else m) }
+
 let check inp obs =
   match split_ws inp with
+  | ["prune"; hdrs; bad; steps] -> check_prune hdrs bad steps obs
   | [hdrs; bad; steps] ->
     let hd = parse_headers hdrs in
     let badl = if bad = "-" then [] else List.map n_of_hex (split ',' bad) in
@@ -248,7 +339,7 @@ let cstep = function
   | SAnnounceMsg (w, h, b) -> "SAnnounceMsg " ^ cn w ^ " " ^ chdr h ^ " " ^ cn b
 let ev_code = function
   | EImport s -> (ni 0, s) | ESkip s -> (ni 1, s) | EOrphan s -> (ni 2, s) | EDup s -> (ni 3, s)
-  | ENothing s -> (ni 4, s) | EFinal s -> (ni 5, s)
+  | ENothing s -> (ni 4, s) | EFinal s -> (ni 5, s) | EOrphanPruned s -> (ni 6, s)
 
 let coq inp obs =
   try
